@@ -9,6 +9,7 @@ import Mathlib.Tactic.NormNum
 import BC.Real
 import BC.Model.Traj
 import BC.Lemmas.Vec
+import BC.Lemmas.C01Conv
 
 namespace BC.Props.C01
 open BC BC.Model BC.Lemmas.VecL
@@ -242,5 +243,95 @@ example : (vacRun 0.25 (-32.17405) (fun _ => 0) [(⟨0, 0, 0⟩, 1116), (⟨5, 0
   have h := vac_time_lt 0.25 (-32.17405) (by norm_num) (fun _ => 0) (⟨0, 0, 0⟩, 1116) [(⟨5, 0, 3⟩, 1116)]
     ⟨⟨0, 0, 0⟩, ⟨2800, 10, 0⟩, 0⟩
   exact ne_of_gt h
+
+/-! ### convergence (partial): discrete Lax / Grönwall -/
+
+/-- **C01_converges_partial** (partial: stability and consistency of the step map are hypotheses): for ANY one-step scheme
+    `Φ` on a state space with a distance `d` (non-negative, zero on the diagonal, triangle inequality), if `Φ` expands distances
+    by at most `1 + ρ` per step (stability: Lipschitz right-hand side) and the exact solution sampled along the scheme's own
+    steps is reproduced by one step up to `ε` (consistency: local truncation error), then after `n` steps the numerical
+    state is within `ε · n · exp(ρ n)` of the exact one. -/
+theorem C01_converges_partial {X : Type} (d : X → X → ℝ) (hd0 : ∀ a, d a a = 0) (hnn : ∀ a b, 0 ≤ d a b)
+    (htri : ∀ a b c, d a c ≤ d a b + d b c)
+    (Φ : X → X) (s y : ℕ → X) (ρ ε : ℝ) (hρ : 0 ≤ ρ) (hε : 0 ≤ ε)
+    (hs : ∀ k, s (k + 1) = Φ (s k)) (h0 : s 0 = y 0)
+    (hstab : ∀ a b, d (Φ a) (Φ b) ≤ (1 + ρ) * d a b)
+    (hcons : ∀ k, d (Φ (y k)) (y (k + 1)) ≤ ε) :
+    ∀ n : ℕ, d (s n) (y n) ≤ ε * n * Real.exp (ρ * n) := by
+  have _ := hnn
+  apply BC.Lemmas.C01Conv.gronwall_exp (fun k => d (s k) (y k)) ρ ε hρ hε
+  · show d (s 0) (y 0) ≤ 0
+    rw [h0, hd0]
+  · intro k
+    show d (s (k + 1)) (y (k + 1)) ≤ (1 + ρ) * d (s k) (y k) + ε
+    rw [hs k]
+    have h1 := htri (Φ (s k)) (Φ (y k)) (y (k + 1))
+    have h2 := hstab (s k) (y k)
+    have h3 := hcons k
+    linarith
+
+/-- first order in the step: with `ρ = L·h` and `ε = C·h²` (Lipschitz constant `L`, local error constant `C`, time step at
+    most `h`), the error after `n` steps is at most `C · h · T · exp(L T)` with `T = n·h` the elapsed (pseudo-)time. -/
+theorem C01_first_order {X : Type} (d : X → X → ℝ) (hd0 : ∀ a, d a a = 0) (hnn : ∀ a b, 0 ≤ d a b)
+    (htri : ∀ a b c, d a c ≤ d a b + d b c)
+    (Φ : X → X) (s y : ℕ → X) (L C h : ℝ) (hL : 0 ≤ L) (hC : 0 ≤ C) (hh : 0 ≤ h)
+    (hs : ∀ k, s (k + 1) = Φ (s k)) (h0 : s 0 = y 0)
+    (hstab : ∀ a b, d (Φ a) (Φ b) ≤ (1 + L * h) * d a b)
+    (hcons : ∀ k, d (Φ (y k)) (y (k + 1)) ≤ C * h ^ 2) :
+    ∀ n : ℕ, d (s n) (y n) ≤ C * h * (n * h) * Real.exp (L * (n * h)) := by
+  intro n
+  have h1 := C01_converges_partial d hd0 hnn htri Φ s y (L * h) (C * h ^ 2) (mul_nonneg hL hh)
+    (mul_nonneg hC (pow_nonneg hh 2)) hs h0 hstab hcons n
+  have e1 : L * h * (n : ℝ) = L * (n * h) := by ring
+  have e2 : C * h ^ 2 * (n : ℝ) = C * h * (n * h) := by ring
+  rw [e1, e2] at h1
+  exact h1
+
+/-- the scheme the theorem is applied to: the model's step in a fixed environment (constant wind `w`, density ratio
+    `density`, sound speed `mach`) -/
+noncomputable def stepMap (cs g : ℝ) (dbm : ℝ → ℝ) (w : Vec ℝ) (density mach : ℝ) : St ℝ → St ℝ :=
+  fun s => (step cs g dbm w density mach s).st
+
+/-- **C01_model_converges_partial** (partial; instance): the numerical trajectory `stepMap^[n]` of the model satisfies the
+    convergence theorem for every distance on states for which the step map is stable and consistent. -/
+theorem C01_model_converges_partial (cs g : ℝ) (dbm : ℝ → ℝ) (w : Vec ℝ) (density mach : ℝ)
+    (d : St ℝ → St ℝ → ℝ) (hd0 : ∀ a, d a a = 0) (hnn : ∀ a b, 0 ≤ d a b)
+    (htri : ∀ a b c, d a c ≤ d a b + d b c)
+    (y : ℕ → St ℝ) (ρ ε : ℝ) (hρ : 0 ≤ ρ) (hε : 0 ≤ ε)
+    (hstab : ∀ a b, d (stepMap cs g dbm w density mach a) (stepMap cs g dbm w density mach b) ≤ (1 + ρ) * d a b)
+    (hcons : ∀ k, d (stepMap cs g dbm w density mach (y k)) (y (k + 1)) ≤ ε) :
+    ∀ n : ℕ, d ((stepMap cs g dbm w density mach)^[n] (y 0)) (y n) ≤ ε * n * Real.exp (ρ * n) :=
+  C01_converges_partial d hd0 hnn htri (stepMap cs g dbm w density mach)
+    (fun n => (stepMap cs g dbm w density mach)^[n] (y 0)) y ρ ε hρ hε
+    (fun k => Function.iterate_succ_apply' _ k _) rfl hstab hcons
+
+/-! non-vacuity: explicit Euler for `y' = -y` on ℝ with `|a − b|`; `1 − h` contracts, the exact samples are the
+    numerical ones (ε = 0), so the hypotheses hold together with a non-trivial `Φ`; and a scheme with a genuine
+    local error: `Φ a = a`, `y k = k·ε`. -/
+example (n : ℕ) : |((fun a : ℝ => a + (1/2) * (-a))^[n] 1) - ((fun a : ℝ => a + (1/2) * (-a))^[n] 1)|
+    ≤ 0 * n * Real.exp (0 * n) :=
+  C01_converges_partial (fun a b : ℝ => |a - b|) (fun a => by simp) (fun a b => abs_nonneg _)
+    (fun a b c => abs_sub_le a b c) (fun a : ℝ => a + (1/2) * (-a))
+    (fun n => (fun a : ℝ => a + (1/2) * (-a))^[n] 1) (fun n => (fun a : ℝ => a + (1/2) * (-a))^[n] 1)
+    0 0 le_rfl le_rfl (fun k => Function.iterate_succ_apply' _ k _) rfl
+    (fun a b => by
+      have e : a + 1 / 2 * -a - (b + 1 / 2 * -b) = (1/2) * (a - b) := by ring
+      simp only [e, abs_mul]
+      have : |(1/2 : ℝ)| = 1/2 := abs_of_pos (by norm_num)
+      rw [this]
+      have := abs_nonneg (a - b)
+      linarith)
+    (fun k => by
+      simp only [Function.iterate_succ_apply']
+      simp) n
+
+example (ε : ℝ) (hε : 0 ≤ ε) (n : ℕ) : |(0:ℝ) - n * ε| ≤ ε * n * Real.exp (0 * n) :=
+  C01_converges_partial (fun a b : ℝ => |a - b|) (fun a => by simp) (fun a b => abs_nonneg _)
+    (fun a b c => abs_sub_le a b c) id (fun _ => 0) (fun k => k * ε) 0 ε le_rfl hε (fun _ => rfl) (by simp)
+    (fun a b => by simp)
+    (fun k => by
+      have e : id ((k : ℝ) * ε) - ((k + 1 : ℕ) : ℝ) * ε = -ε := by push_cast; simp only [id]; ring
+      show |id ((k : ℝ) * ε) - ((k + 1 : ℕ) : ℝ) * ε| ≤ ε
+      rw [e, abs_neg, abs_of_nonneg hε]) n
 
 end BC.Props.C01
